@@ -122,3 +122,62 @@ Definition sparse_of (m : pomdp) : pomdp :=
   {| pm := {| nS := nS (pm m); nA := nA (pm m); P := map sparsify_mat (P (pm m));
               R := sparsify_mat (R (pm m)); gam := gam (pm m) |};
      nO := nO m; Ob := map sparsify_mat (Ob m) |}.
+
+(* ------------------------------------------------------------------ a model object over its life *)
+(* The belief-update helpers read whatever the model object holds at the time of the call, so the
+   property has to hold after any history of public mutators.  State = the tables held (a [pomdp]);
+   operations = the setters of POMDP::Model / MDP::Model (POMDP::SparseModel / MDP::SparseModel have the
+   same logic on sparsified tables).  Both overloads of a validating setter (3-D container / Eigen
+   matrices) apply the same test and are one operation here. *)
+
+(* src: Utils/Probability.hpp:isProbability(size, in) and Probability.cpp:isProbability(Matrix2D) —
+   a row is accepted iff no entry is negative and checkEqualSmall(sum, 1.0) *)
+Definition prob_rowb (r : vec) : bool :=
+  forallb (fun x => Qle_bool 0 x) r && Qle_bool (qabs (qsum r - 1)) epsS.
+Definition prob_tableb (t : list mat) : bool := forallb (forallb prob_rowb) t.
+
+Inductive op :=
+| OpSetObs (t : list mat)      (* setObservationFunction: t[a][s1][o] *)
+| OpSetT (t : list mat)        (* setTransitionFunction:  t[a][s][s1] *)
+| OpSetR3 (r3 : list mat)      (* setRewardFunction(3-D container): r3[s][a][s1], folded with the current T *)
+| OpSetR2 (r : mat).           (* setRewardFunction(Matrix2D): r[s][a], stored as is *)
+
+Definition with_obs (st : pomdp) (t : list mat) : pomdp := {| pm := pm st; nO := nO st; Ob := t |}.
+Definition with_T (st : pomdp) (t : list mat) : pomdp :=
+  {| pm := {| nS := nS (pm st); nA := nA (pm st); P := t; R := R (pm st); gam := gam (pm st) |};
+     nO := nO st; Ob := Ob st |}.
+Definition with_R (st : pomdp) (r : mat) : pomdp :=
+  {| pm := {| nS := nS (pm st); nA := nA (pm st); P := P (pm st); R := r; gam := gam (pm st) |};
+     nO := nO st; Ob := Ob st |}.
+
+(* one public mutator call: (new state, accepted?).  A rejected call (the C++ throws
+   std::invalid_argument) leaves the object as it was: validate first, commit afterwards.
+   src: POMDP/Model.hpp:setObservationFunction (both overloads), MDP/Model.hpp + src/MDP/Model.cpp:
+   setTransitionFunction (both overloads), setRewardFunction (both overloads; never rejects) *)
+Definition step (st : pomdp) (o : op) : pomdp * bool :=
+  match o with
+  | OpSetObs t => if prob_tableb t then (with_obs st t, true) else (st, false)
+  | OpSetT t => if prob_tableb t then (with_T st t, true) else (st, false)
+  | OpSetR3 r3 => (with_R st (fold_rewards (nS (pm st)) (nA (pm st)) (P (pm st)) r3), true)
+  | OpSetR2 r => (with_R st r, true)
+  end.
+Fixpoint run (st : pomdp) (ops : list op) : pomdp :=
+  match ops with [] => st | o :: t => run (fst (step st o)) t end.
+
+(* ------------------------------------------------------------------ filtering along a history *)
+(* all entries finite? *)
+Fixpoint xfins (l : list xq) : option vec :=
+  match l with
+  | [] => Some []
+  | XFin q :: t => match xfins t with Some v => Some (q :: v) | None => None end
+  | _ :: _ => None
+  end.
+(* b = updateBelief(model, b, a, o) repeated along a list of (action, observation) pairs; None as soon as a
+   result is not finite (zero-probability observation) *)
+Fixpoint iter_hist (upd : vec -> nat -> nat -> list xq) (b : vec) (h : list (nat * nat)) : option vec :=
+  match h with
+  | [] => Some b
+  | (a, o) :: t => match xfins (upd b a o) with Some b' => iter_hist upd b' t | None => None end
+  end.
+Definition updateE_hist (m : pomdp) : vec -> list (nat * nat) -> option vec := iter_hist (updateE m).
+Definition updateQ_hist (g : qmodel) : vec -> list (nat * nat) -> option vec := iter_hist (updateQ g).
